@@ -62,6 +62,37 @@ def rule_validate(cx, m, rid):
                 else:
                     r.stat.obligations += 1
                     r.stat.failed += 1
+    # decorated spellings (version pins, separators, control characters around a registered name): none is a registered name
+    def decorated(name):
+        out = set()
+        for ch in "@:/#;,.=?*+~!$%&|<>[](){}'\"\\\t\n\r\x00- ":
+            out |= {name + ch, name + ch + "5.0.0", ch + name, name + ch + name, name + ch + ch}
+        out.discard(name)
+        return out
+
+    pairs = []
+    for p in names:
+        some = sorted(plats[p])[:2] + sorted(plats[p])[-1:]
+        for p2 in sorted(decorated(p)):
+            pairs += [(p2, b) for b in some]
+        for b in some:
+            pairs += [(p, b2) for b2 in sorted(decorated(b))]
+    for p, b in pairs:
+        if p in plats and b in plats[p]:
+            continue
+        try:
+            out = dl.Interp(m).call(fn, [p, b])
+        except dl.Unsupported as e:
+            raise AnalysisError(f"validate_platform_board left the decision-list subset: {e}")
+        if out.kind == "raise" and out.value == "ValueError":
+            r.ok(None)
+        else:
+            n_bad += 1
+            if n_bad <= 5:
+                r.fail(f"validate[decorated-name]->{out.kind}:{out.value}", (m, fn), f"validate_platform_board({p!r}, {b!r}) gives {out!r}; expected ValueError: the string is not a registered platform/board", detail={"platform": p, "board": b})
+            else:
+                r.stat.obligations += 1
+                r.stat.failed += 1
     # all raises in the function are ValueError
     for n in walk_local(fn):
         if isinstance(n, ast.Raise):
